@@ -660,7 +660,7 @@ def sig_tokens(toks, item):
     return ts
 
 
-def check_contract_of(unit, toks, i, n, arg):
+def check_contract_of(unit, toks, i, n, arg, lemma=False):
     """//@CONTRACT-OF <unit> :: <item path as in that unit's //@SRC line, without the file>
     The assumed (external_body) declaration that follows must carry, token for token, the signature and
     contract under which the named unit verifies the real function."""
@@ -672,7 +672,19 @@ def check_contract_of(unit, toks, i, n, arg):
         _tmpl_cache[other] = tokenize(text)[0]
     ot = _tmpl_cache[other]
     want = None
+    if lemma:
+        # //@LEMMA-OF <unit> :: <name>: the lemma is stated (external_body) here and proved under that name there
+        for k, t in enumerate(ot):
+            if t.text == 'fn' and ot[k + 1].text == path and ot[k - 1].text == 'proof':
+                j = k - 1
+                while ot[j - 1].text in ('pub', 'broadcast'):
+                    j -= 1
+                it2 = parse_item(ot, j, len(ot), True)
+                if it2.body_open is not None and not any(x.text == 'external_body' for x in ot[max(0, j - 8):j]):
+                    want = it2
     for k, t in enumerate(ot):
+        if lemma:
+            break
         if '//@SRC' in t.trivia:
             for kd, a2 in parse_directives(t.trivia):
                 if kd == 'SRC' and a2.split('::', 1)[1].strip() == path:
@@ -720,6 +732,8 @@ def generate(unit, canary=False, expand=True):
         for kd, arg in ds:
             if kd == 'CONTRACT-OF':
                 check_contract_of(unit, toks, i, n, arg)
+            elif kd == 'LEMMA-OF':
+                check_contract_of(unit, toks, i, n, arg, lemma=True)
         if 'SRC' in kinds:
             src_arg = [d[1] for d in ds if d[0] == 'SRC'][0]
             nth = None
